@@ -4,6 +4,7 @@ from __future__ import annotations
 
 import multiprocessing as mp
 import os
+import resource
 import shutil
 import struct
 import tempfile
@@ -193,7 +194,20 @@ _ITEMS: List[Any] = []
 
 
 def _worker(idxs):
-    return [_FN(_ITEMS[i]) for i in idxs]
+    # the tool never closes the image file it opens; its objects are cyclic, so the descriptors go only when the collector
+    # runs: collect regularly and lift the soft descriptor limit, or a long-lived worker runs out of descriptors
+    import gc
+    try:
+        soft, hard = resource.getrlimit(resource.RLIMIT_NOFILE)
+        resource.setrlimit(resource.RLIMIT_NOFILE, (hard if hard != resource.RLIM_INFINITY else 65536, hard))
+    except Exception:
+        pass
+    out = []
+    for n, i in enumerate(idxs):
+        out.append(_FN(_ITEMS[i]))
+        if n % 25 == 24:
+            gc.collect()
+    return out
 
 
 def parallel(fn: Callable, items: List[Any], procs: int = 12) -> List[Any]:
